@@ -9,7 +9,11 @@ func (core *JApiCore) compileCore() *jerr.JApiError {
 	// JSIGHT has to be the first directive of the document as it is written. The
 	// MACRO definitions are taken out of the list below: they must not hide a
 	// missing or misplaced JSIGHT from the check made when the catalog is built.
-	if len(core.directives) != 0 && core.directives[0].Type() != directive.Jsight {
+	if len(core.directives) == 0 {
+		// A document without any directive has no JSIGHT either.
+		return core.japiError(jerr.DirectiveJSIGHTShouldBeTheFirst, 0)
+	}
+	if core.directives[0].Type() != directive.Jsight {
 		return core.directives[0].KeywordError(jerr.DirectiveJSIGHTShouldBeTheFirst)
 	}
 
